@@ -1,10 +1,15 @@
 (* C03 -- decoding a PDU and re-encoding the result reproduces the PDU.
    PROVED HERE (atomic layer): every canonical raw value re-encodes to itself; the
    only non-canonical raw values of integers are the negative zeros of 1C / SM.
-   The compu-method half is in Properties/C07.v; the composite statement is
+   PROVED AT MESSAGE LEVEL (C03_flat_message_reencode): a message of a description which is
+   a sequence of standard-length CODED-CONST / VALUE parameters with implicit positions,
+   made of canonical slices (no stray bits above the bit length, raw values the encoder
+   produces), decodes to values whose encoding is the message again -- about the model's
+   real entry points decode_msg / encode_msg.
+   The compu-method half is in Properties/C07.v; general parameter trees are
    correspondence + oracle only. *)
 From Coq Require Import ZArith List Bool.
-From OV Require Import Base.Bytes Base.Wire Generated Model.Str Model.Codec Proofs.BytesProofs Proofs.AtomicProofs Proofs.CodecProps.
+From OV Require Import Base.Bytes Base.Wire Generated Model.Str Model.Codec Proofs.BytesProofs Proofs.AtomicProofs Proofs.CodecProps Proofs.FlatProofs.
 Import ListNotations.
 Open Scope Z_scope.
 
@@ -34,3 +39,30 @@ Theorem C03_negative_zero_refuted :
                 /\ raw_of (VInt z) 8 BInt (Some Enc1C) true <> Ok raw.
 Proof. exists 255, 0. vm_compute. split; [reflexivity | discriminate]. Qed.
 Print Assumptions C03_negative_zero_refuted.
+
+Theorem C03_flat_message_reencode : forall fl vv ws,
+  Forall2 (fun x w => sane vv x /\ canon vv x w) fl ws -> NoDup (map fname fl) ->
+  decode_msg (map mkp fl) (concat ws) = Ok (VDict (fvals vv fl)) /\
+  encode_msg (map mkp fl) None (VDict (fvals vv (filter is_value fl))) = Ok (concat ws, false).
+Proof. exact flat_reencode. Qed.
+Print Assumptions C03_flat_message_reencode.
+
+(* the hypothesis is met by every unsigned integer slice without stray bits *)
+Theorem C03_canon_uint : forall vv nm bl hl cst w,
+  0 < bl -> bytes_ok w = true -> blen w = nbytes_of bl 0 ->
+  be_int (if negb hl && true then rev w else w) < 2 ^ bl ->
+  vv nm = VInt (be_int (if negb hl && true then rev w else w)) ->
+  canon vv (mkF nm bl BUint None hl BUint cst) w.
+Proof. exact canon_uint. Qed.
+Print Assumptions C03_canon_uint.
+
+(* ... and stray bits are indeed not reproduced (the 12 bit value in BC FA) *)
+Theorem C03_flat_example :
+  let fl := [mkF [115] 8 BUint None true BUint (Some (VInt 34)); mkF [112; 50] 12 BUint None false BUint None] in
+  let vv := fun nm => if bytes_eqb nm [115] then VInt 34 else VInt 2748 in
+  decode_msg (map mkp fl) [34; 188; 10] = Ok (VDict (fvals vv fl)) /\
+  encode_msg (map mkp fl) None (VDict (fvals vv (filter is_value fl))) = Ok ([34; 188; 10], false) /\
+  (exists v, decode_msg (map mkp fl) [34; 188; 250] = Ok v /\
+             encode_msg (map mkp fl) None (VDict (fvals vv (filter is_value fl))) <> Ok ([34; 188; 250], false)).
+Proof. exact reencode_example. Qed.
+Print Assumptions C03_flat_example.
